@@ -16,6 +16,7 @@ open Router
 inductive Obs
   | out (o : Out)
   | panic
+  | hang        -- the call into the routing core did not return (the harness's watchdog ended the run)
 
 /-- one subscription as the spec sees it -/
 structure Sub where
@@ -56,6 +57,14 @@ structure LinkMon where
   mayConnack : Bool := true
   maxWindow : Nat := 0
   replays : List (String × Nat) := []    -- (topic, qos) of the retained-flagged forwards seen (C15)
+  /-- replies owed to this link by the property text alone, derived from what the LINK pushed (not
+      from the model's account): (kind, packet id); removed when the reply is seen (C06) -/
+  owed : List (String × Nat) := []
+  /-- filters of the UNSUBSCRIBE packets the link pushed, by packet id, each with: did the session
+      hold an open subscription to it when the packet was pushed (and no earlier UNSUBSCRIBE of it
+      was still unanswered)? Then the answer must be Success (C01: an UNSUBACK that says "no such
+      subscription" for a filter the session holds means the unsubscribe was ignored) -/
+  unsubReqs : List (Nat × List (String × Bool)) := []
 deriving Repr
 
 structure Saved where
@@ -71,6 +80,13 @@ structure GroupMon where
   maybe : List Nat := []      -- entries forwarded to a member that is also subscribed through another matching subscription
   stableFrom : Nat := 0
   fuzzy : Bool := false
+  /-- entries delivered through the group before it last became empty (no live member left): the
+      router then drops the group, and a resumed persistent session re-creates it at its own
+      saved cursor -/
+  earlier : List Nat := []
+  /-- (lo, hi): a persistent member left with unacknowledged entries, the oldest at `lo`, when the
+      group had delivered up to `hi`: the router sets the group's cursor back to `lo` -/
+  rewinds : List (Nat × Nat) := []
 deriving Repr
 
 structure MonState where
@@ -129,7 +145,13 @@ def candidates (m : MonState) (lm : LinkMon) (cfg : List Nat) (f : Pub) : List (
       -- overtook this subscriber's cursor; every alternative is kept (payloads need not be unique)
       let jumps := (m.heads.filter (fun hd => hd.1 == s.idx && hd.2 > ptr)).flatMap (fun hd => tryAt hd.2)
       let cs := tryAt ptr ++ jumps
-      if cs.isEmpty && s.lossy then later else cs
+      -- a resumed QoS 0 subscription lost what was read but not drained before the disconnect:
+      -- its first forward may be any later entry (every one that carries this message)
+      if s.lossy then
+        let laterAll := (((h.zipIdx).drop ptr).filter (fun (e, a) => a < bound && sameMessage f e)).map
+          (fun (_, a) => (listSet cfg i (a + 1), i, a))
+        cs ++ laterAll.filter (fun c => !cs.contains c)
+      else cs
     | some _ => later   -- shared: any later entry, in increasing order per member
 
 def dedup {α} [BEq α] (l : List α) : List α := l.foldl (fun acc x => if acc.contains x then acc else acc ++ [x]) []
@@ -203,9 +225,21 @@ def observeForward (m : MonState) (l : Nat) (f : Pub) : MonState × Fail :=
     let again := (lm.subs.zipIdx).any fun (s, i) =>
       s.group.isSome && s.qos == f.qos && !f.payload.isEmpty &&
         (((histOf m s.idx).take (cfg0[i]?.getD s.start)).any (fun e => sameMessage f e))
+    -- ... unless the group's cursor may have been set back for a reason the link's view cannot
+    -- pin down (a persistent member left with unacknowledged forwards of ambiguous attribution)
+    let fuzzyGroup := (lm.subs.zipIdx).any fun (s, i) =>
+      s.group.isSome && s.qos == f.qos &&
+        (((histOf m s.idx).take (cfg0[i]?.getD s.start)).any (fun e => sameMessage f e)) &&
+        m.groups.any (fun gm => some gm.name == s.group && gm.idx == s.idx && gm.fuzzy)
+    if again && fuzzyGroup then (setL m l lm, none) else
     if again then
+      let rewound := (lm.subs.zipIdx).any fun (s, i) =>
+        s.group.isSome && s.qos == f.qos &&
+          (((histOf m s.idx).zipIdx.take (cfg0[i]?.getD s.start)).any (fun (e, k) => sameMessage f e &&
+            m.groups.any (fun gm => some gm.name == s.group && gm.idx == s.idx && gm.rewinds.any (fun r => r.1 ≤ k && k ≤ r.2))))
+      let why := if rewound then " (forwarded again after the group's cursor was set back to the oldest unacknowledged entry of a persistent member that left)" else ""
       (setL m l lm, some ("c17-delivered-twice",
-        s!"payload {showBytes f.payload} (qos {f.qos}, pkid {f.pkid}) was already forwarded to this member through its shared subscription"))
+        s!"payload {showBytes f.payload} (qos {f.qos}, pkid {f.pkid}) was already forwarded to this member through its shared subscription{why}"))
     else
     (setL m l lm, some ("c01-unexpected-forward",
       s!"forward qos={f.qos} payload={String.ofList (f.payload.map (fun b => Char.ofNat b.toNat))} is not the next undelivered message of any subscription of this connection (no match, out of order, duplicate or gap); subscriptions: {describeSubs m lm}; positions: {lm.subs.map (fun s => ((histOf m s.idx).zipIdx.filterMap (fun (e, k) => if sameMessage f e then some k else none), (m.heads.filter (fun hd => hd.1 == s.idx)).map (fun hd => (hd.2, match (histOf m s.idx)[hd.2]? with | some e => showBytes e.payload | none => "?"))))}"))
@@ -246,8 +280,17 @@ def observeForward (m : MonState) (l : Nat) (f : Pub) : MonState × Fail :=
               ({ m with groups := m.groups.map (fun x => if x.name == g && x.idx == s.idx then
                   { x with maybe := x.maybe ++ ((histOf m s.idx).zipIdx.filterMap (fun (e, k) => if e.payload.isEmpty then some k else none)) } else x) }, none)
             else
+            -- a QoS>0 forward read from the buffer of a persistent member whose connection has
+            -- already ended: unacknowledged by construction, the router hands the entry out again
+            -- (C08 over C17); it is neither the first nor a second delivery
+            if !lm.live && !lm.clean && f.qos != 0 then (m, none) else
+            if gm.earlier.contains a && !gm.fuzzy then
+              (m, some ("c17-delivered-twice", s!"entry {a} (payload {showBytes f.payload}, qos {f.qos}, pkid {f.pkid}) of group {g} was already forwarded to a member before the group emptied; the group re-created by a resumed session starts at that session's saved cursor"))
+            else
             if gm.delivered.contains a && !gm.fuzzy then
-              (m, some ("c17-delivered-twice", s!"entry {a} (payload {showBytes f.payload}, qos {f.qos}, pkid {f.pkid}) of group {g} was already forwarded to a member"))
+              let why := if gm.rewinds.any (fun r => r.1 ≤ a && a ≤ r.2)
+                then " (forwarded again after the group's cursor was set back to the oldest unacknowledged entry of a persistent member that left)" else ""
+              (m, some ("c17-delivered-twice", s!"entry {a} (payload {showBytes f.payload}, qos {f.qos}, pkid {f.pkid}) of group {g} was already forwarded to a member{why}"))
             else
               ({ m with groups := m.groups.map (fun x => if x.name == g && x.idx == s.idx then { x with delivered := x.delivered ++ [a] } else x) }, none)
           | none => (m, none)
@@ -277,10 +320,39 @@ def observeAck (m : MonState) (l : Nat) (a : Ack) : MonState × Fail :=
       else (setL m l { lm with expectAcks := rest }, some ("c06-ack-mismatch", s!"got {repr a}, the next reply owed to this client is {repr e}"))
     | [] => (m, some ("c06-ack-unexpected", s!"got {repr a} but no reply is owed to this client"))
 
+def ackKey : Ack → Option (String × Nat)
+  | .puback pk => some ("puback", pk)
+  | .pubrec pk => some ("pubrec", pk)
+  | .pubcomp pk => some ("pubcomp", pk)
+  | .suback pk _ => some ("suback", pk)
+  | .unsuback pk _ => some ("unsuback", pk)
+  | .pingresp => some ("pingresp", 0)
+  | _ => none
+
+/-- link-side bookkeeping of a reply that arrived, and the one check on its content that does not
+    go through the model: UNSUBACK "no subscription existed" for a filter the session holds -/
+def noteReply (m : MonState) (l : Nat) (a : Ack) : MonState × Fail :=
+  let lm := getL m l
+  let lm := match ackKey a with
+    | some k => { lm with owed := lm.owed.eraseP (· == k) }
+    | none => lm
+  match a with
+  | .unsuback pk reasons =>
+    let fs := (lm.unsubReqs.find? (·.1 == pk)).map (·.2) |>.getD []
+    let lm := { lm with unsubReqs := lm.unsubReqs.filter (·.1 != pk) }
+    let ignored := (fs.zip reasons).find? (fun (f, ok) => !ok && f.2)
+    (setL m l lm, match ignored with
+      | some ((f, _), _) => some ("c01-unsubscribe-ignored", s!"UNSUBACK {pk} reports that no subscription to {f} existed, but the session holds one and it stays in force")
+      | none => none)
+  | _ => (setL m l lm, none)
+
 def observeNotif (m : MonState) (l : Nat) (n : Notif) : MonState × Fail :=
   match n with
   | .forward p _ => observeForward m l p
-  | .ack a => observeAck m l a
+  | .ack a =>
+    let (m, f) := observeAck m l a
+    let (m, f') := noteReply m l a
+    (m, if f.isSome then f else f')
   | _ => (m, none)
 
 def observeNotifs (m : MonState) (l : Nat) : List Notif → Fail → MonState × Fail
@@ -295,6 +367,18 @@ def linkPushes (m : MonState) (l : Nat) (p : Packet) : MonState :=
   match p with
   | .puback pk => setL m l { lm with window := lm.window.filter (· != pk) }
   | .pubrec pk => setL m l { lm with window := lm.window.filter (· != pk) }
+  | .publish pb =>
+    if pb.qos == 1 then setL m l { lm with owed := lm.owed ++ [("puback", pb.pkid)] }
+    else if pb.qos == 2 then setL m l { lm with owed := lm.owed ++ [("pubrec", pb.pkid)] }
+    else m
+  | .pubrel pk _ => setL m l { lm with owed := lm.owed ++ [("pubcomp", pk)] }
+  | .subscribe pk _ _ => setL m l { lm with owed := lm.owed ++ [("suback", pk)] }
+  | .unsubscribe pk fs =>
+    let pendingUnsub (f : String) := lm.unsubReqs.any (fun r => r.2.any (fun x => x.1 == f && x.2))
+    let marked := fs.foldl (fun (acc : List (String × Bool)) f =>
+      acc ++ [(f, lm.subs.any (fun s => s.path == f && s.closedAt.isNone) && !pendingUnsub f && !acc.any (fun x => x.1 == f))]) []
+    setL m l { lm with owed := lm.owed ++ [("unsuback", pk)], unsubReqs := lm.unsubReqs ++ [(pk, marked)] }
+  | .pingreq => setL m l { lm with owed := lm.owed ++ [("pingresp", 0)] }
   | _ => m
 
 /-! ### ghost events -/
@@ -364,6 +448,13 @@ def applyGhost (m : MonState) (g : Ghost) : MonState × Fail :=
       let m := { m with groups := m.groups.map (fun g =>
         let mine := lm.subs.any (fun s => s.group == some g.name && s.idx == g.idx)
         if !mine then g else
+        -- the router sets the group's cursor back to the member's oldest unacknowledged QoS>0
+        -- forward of this log, drained by the link or still in its buffer (the link's view
+        -- cannot tell where that is): every entry that exists now may be handed out again
+        -- (the window entry records the log, not the subscription: an unacknowledged forward of
+        -- ANY of the member's QoS>0 subscriptions reading this log rewinds this group too)
+        let qosMember := !clean && lm.subs.any (fun s => s.idx == g.idx && s.closedAt.isNone && s.qos != 0)
+        let g := if qosMember then { g with rewinds := g.rewinds ++ [(0, (histOf m g.idx).length)] } else g
         let g := { g with delivered := g.delivered.filter (fun a => !retract.any (fun r => r.1 == g.name && r.2.1 == g.idx && r.2.2 == a)) }
         if unknown then { g with fuzzy := true } else g) }
       -- replies already flushed to the link's buffer may still be drained afterwards
@@ -414,6 +505,13 @@ def applyGhost (m : MonState) (g : Ghost) : MonState × Fail :=
     | none => (m, none)
     | some l =>
       let lm := getL m l
+      -- the router accepted an acknowledgement for a publish that still sits undrained in the
+      -- link's buffer: a client that acknowledges what it has not read is not one the delivery
+      -- promises are made to (what it "has received" is no longer what it read)
+      if !lm.pendingAcks.any (·.pkid == pkid) then
+        let m := { m with advClients := if m.advClients.contains lm.clientId || lm.clientId == "" then m.advClients else m.advClients ++ [lm.clientId] }
+        (setL m l { lm with ambiguous := true }, none)
+      else
       (setL m l { lm with pendingAcks := lm.pendingAcks.filter (·.pkid != pkid) }, none)
   | .restored id reqs =>
     -- C08: the session resumes at the oldest unacknowledged QoS>0 message of each subscription
@@ -425,7 +523,10 @@ def applyGhost (m : MonState) (g : Ghost) : MonState × Fail :=
       let bad := lm.subs.find? (fun s => s.group.isNone && s.closedAt.isNone && s.qos != 0 &&
         (reqs.any (fun r => r.filter == s.path && r.cursor.2 != s.start &&
           -- a cursor behind the retained head is moved forward by the read itself
-          !(r.cursor.2 < s.start && (histOf m s.idx).length ≥ s.start))))
+          !(r.cursor.2 < s.start && (histOf m s.idx).length ≥ s.start) &&
+          -- entries the link never saw were evicted before the router read them: the window's
+          -- oldest entry then sits at a position that was the head of the log after an eviction
+          !(r.cursor.2 > s.start && m.heads.any (fun hd => hd.1 == s.idx && hd.2 == r.cursor.2)))))
       match bad with
       | some s => (m, some ("c08-resume-point", s!"subscription {s.path} resumes at a different point than the oldest unacknowledged message ({s.start})"))
       | none =>
@@ -436,11 +537,17 @@ def applyGhost (m : MonState) (g : Ghost) : MonState × Fail :=
   | .willCleared _ => (m, none)
   | .willFired _ => (m, none)
 
+/-- a group without a live member starts a new epoch: what it delivered so far is remembered apart -/
+def noteEmptyGroups (m : MonState) : MonState :=
+  { m with groups := m.groups.map (fun g =>
+      let member := m.links.any (fun lm => lm.live && lm.subs.any (fun s => s.group == some g.name && s.idx == g.idx && s.closedAt.isNone))
+      if member || g.delivered.isEmpty then g else { g with earlier := g.earlier ++ g.delivered, delivered := [] }) }
+
 def applyGhosts (m : MonState) : List Ghost → Fail → MonState × Fail
   | [], f => (m, f)
   | g :: rest, f =>
     let (m, f') := applyGhost m g
-    applyGhosts m rest (if f.isSome then f else f')
+    applyGhosts (noteEmptyGroups m) rest (if f.isSome then f else f')
 
 /-- `note adv <L>`: the client of link `l` misbehaves on purpose from now on -/
 def markAdversary (m : MonState) (l : Nat) : MonState :=
@@ -453,11 +560,11 @@ def markAdversary (m : MonState) (l : Nat) : MonState :=
 def relevant (prop tag : String) : Bool :=
   let pre (p : String) := tag.startsWith p
   if prop == "C01" then pre "c01-"
-  else if prop == "C03" then pre "c03-" || tag == "router-panic"
+  else if prop == "C03" then pre "c03-" || tag == "router-panic" || tag == "router-halt"
   else if prop == "C06" then pre "c06-"
   else if prop == "C08" then pre "c08-" || pre "c01-"
   else if prop == "C09" then pre "c09-" || tag == "c01-undelivered-at-idle"
-  else if prop == "C14" then pre "c14-" || pre "c01-" || pre "c06-" || tag == "router-panic"
+  else if prop == "C14" then pre "c14-" || pre "c01-" || pre "c06-" || tag == "router-panic" || tag == "router-halt"
   else if prop == "C15" then pre "c15-"
   else if prop == "C16" then pre "c16-" || pre "c01-"
   else if prop == "C17" then pre "c17-"
@@ -476,6 +583,7 @@ def observe (prop : String) (m : MonState) (op : Op) (o : Obs) (ghosts : List Gh
   let m := { m with t := m.t + 1 }
   match o with
   | .panic => (m, filt prop (some ("router-panic", "the routing core panicked")))
+  | .hang => (m, filt prop (some ("router-halt", "the routing core did not return from this call: it has stopped serving every connection")))
   | .out out =>
     -- link-side effects first (what the link did / saw), then what the router did
     let (m, f1) : MonState × Fail :=
@@ -514,6 +622,8 @@ def stateless (prop : String) (op : Op) (o : Obs) : Fail :=
         else if p.qos != 0 && p.pkid == 0 then some ("c09-zero-pkid", "QoS>0 forward with packet id 0")
         else none
       | _ => none)
+  | _, .panic => filt prop (some ("router-panic", "the routing core panicked"))
+  | _, .hang => filt prop (some ("router-halt", "the routing core did not return from this call: it has stopped serving every connection"))
   | _, _ => none
 
 /-- checks at a point where the harness drove the router to idle and every client acknowledged -/
@@ -524,6 +634,9 @@ def atIdle (prop : String) (m : MonState) : Fail :=
     if !lm.expectAcks.isEmpty then
       some ((match lm.expectAcks.head? with | some (.connack _ _) => "c03-not-serving" | _ => "c06-ack-missing"),
             s!"link {l}: {lm.expectAcks.length} replies still owed at idle, first {repr (lm.expectAcks.head?)}")
+    else if !lm.owed.isEmpty && !lm.ambiguous then
+      -- by the link's own account (what it sent, what came back), whatever the model committed
+      some ("c06-request-unanswered", s!"link {l}: no reply to {repr (lm.owed.head?)} (and {lm.owed.length - 1} more) although the connection is still up and the broker is idle")
     else none
   let fails : List (String × String) := (m.links.zipIdx).filterMap fun (lm, l) =>
     if !lm.live || m.advClients.contains lm.clientId then none else
